@@ -522,29 +522,45 @@ def run_requests(scenario, do_op, step_cap=200_000):
             outcomes[follow_rid] = follow_outcome
             sim.event("done", follow_rid, digest({k: v for k, v in follow_outcome.items() if k != "msg"}))
 
-    async def main():
-        loop = asyncio.get_running_loop()
-        sim.loop = loop
-        tasks = []
-        for request in requests:
-            task = loop.create_task(client(request), name=request["rid"])
-            tasks.append(task)
-            fault = request.get("fault")
-            if fault and fault.get("kind") == "cancel":
+    def make_main(phase_requests):
+        async def main():
+            loop = asyncio.get_running_loop()
+            sim.loop = loop
+            sim.closed = False
+            tasks = []
+            for request in phase_requests:
+                task = loop.create_task(client(request), name=request["rid"])
+                tasks.append(task)
+                fault = request.get("fault")
+                if fault and fault.get("kind") == "cancel":
 
-                def cancel(_task=task):
-                    if not _task.done():
-                        sim.count_fault("F3_sibling_cancel")
-                        _task.cancel()
+                    def cancel(_task=task):
+                        if not _task.done():
+                            sim.count_fault("F3_sibling_cancel")
+                            _task.cancel()
 
-                loop.call_at(float(fault["at"]) * TIME_UNIT, cancel)
-        await asyncio.gather(*tasks, return_exceptions=True)
-        sim.sim_time = loop.time()
-        sim.steps = loop.steps
-        sim.closed = True
+                    loop.call_at(float(fault["at"]) * TIME_UNIT, cancel)
+            await asyncio.gather(*tasks, return_exceptions=True)
+            sim.sim_time += loop.time()
+            sim.steps += loop.steps
+            sim.closed = True
 
+        return main
+
+    # requests of a later "phase" run in a NEW event loop of the same process (a service that calls asyncio.run() per
+    # batch of messages): whatever the library keeps between calls must not be bound to the first loop
+    phases = sorted({int(r.get("phase", 0)) for r in requests})
+    result = None
     try:
-        result, loop = run_in_sim(main, step_cap=step_cap)
+        for phase in phases:
+            if len(phases) > 1:
+                sim.closed, sim.loop = False, None
+                sim.event("loop", phase)
+            result, _loop = run_in_sim(
+                make_main([r for r in requests if int(r.get("phase", 0)) == phase]), step_cap=step_cap
+            )
+            if isinstance(result, BaseException):
+                break
     finally:
         inject.clear()
     if isinstance(result, BaseException):
